@@ -423,6 +423,101 @@ def endian(ctx):
     ctx.floor("endian conversions x configurations", n, 12)
 
 
+# ------------------------------------------------------------------ graph-convert dispatch
+def convert_dispatch(ctx, fxt):
+    ctx.rule("C12.convert.dispatch-total",
+             "graph-convert main(): every ConvertMode enumerator has a case label that reaches exactly one convert<...>() call and "
+             "then leaves the switch (no fall-through into the next conversion); no two modes run the same converter "
+             "instantiation; the default label does not return normally; every enumerator is offered on the command line "
+             "(clEnumVal list), so each documented conversion is dispatched to its own converter")
+    enum = fxt.enums.get("ConvertMode", {})
+    vals = enum.get("values", {})
+    mains = [f for f in fxt.functions if f["qn"] == "main" and f["file"].endswith("graph-convert/graph-convert.cpp")]
+    if not vals or not mains:
+        ctx.broken("graph-convert: enum ConvertMode or main() not found")
+        return
+    ctx.floor("ConvertMode enumerators", len(vals), 40)
+    fn = ctx.fn(mains[0])
+    byval = {v: k for k, v in vals.items()}
+    labels = {}
+    for bid, b in fn.blocks.items():
+        lab = b.get("label")
+        if lab and lab.get("k") == "case":
+            labels.setdefault(lab.get("v"), bid)
+    seen_conv = {}
+    conv = lambda e: e.get("k") == "call" and e.get("name") == "convert"
+    for name, v in sorted(vals.items(), key=lambda kv: kv[1]):
+        det = []
+        bid = labels.get(v)
+        if bid is None:
+            det.append("no case label: the option is accepted and silently does nothing")
+        else:
+            hits, ex = fn.search([(bid, 0)], stop=conv)
+            if len(hits) != 1:
+                det.append("reaches %d convert<> calls" % len(hits))
+            else:
+                e = fn.ev(hits[0])
+                key = e.get("fk")
+                if key in seen_conv and seen_conv[key] != name:
+                    det.append("runs the same converter as %s (%s)" % (seen_conv[key], key[-60:]))
+                seen_conv.setdefault(key, name)
+                h2, _ = fn.search([fn.after(hits[0])], stop=conv)
+                if h2:
+                    det.append("falls through into another conversion (missing break)")
+        ctx.ob("C12.convert.dispatch-total", "graph-convert::main", not det, "%s: %s" % (name, "; ".join(det)), fn.loc(), name,
+               fnkey=mains[0]["key"])
+    # the command-line table offers every enumerator: the option's clEnumVal list is a global initialiser; its enumerator
+    # references are visible as refs in the translation unit's static initialiser functions
+    offered = set()
+    for f in fxt.functions:
+        if not f["file"].endswith("graph-convert/graph-convert.cpp"):
+            continue
+        if not ("__cxx_global_var_init" in f["qn"] or "convertMode" in f["qn"] or f["name"].startswith("__")):
+            continue
+        for b in f.get("blocks", []):
+            for e in b["ev"]:
+                for x in walk(e):
+                    if isinstance(x, dict) and x.get("k") == "ref" and x.get("n") in vals:
+                        offered.add(x["n"])
+    if offered:
+        missing = sorted(set(vals) - offered)
+        ctx.ob("C12.convert.dispatch-total", "graph-convert::options", not missing,
+               "enumerators not offered on the command line: %s" % missing, fn.loc(), "clEnumVal")
+    else:
+        ctx.note("graph-convert: the option table's initialiser is not visible as a function in the facts; only the switch is checked")
+
+
+def two_phase(ctx, fxt):
+    ctx.rule("C12.convert.two-phase-agreement",
+             "every conversion that builds its output with FileGraphWriter's two-phase protocol counts degrees for exactly the "
+             "nodes it later attaches edges to: the set of first arguments of incrementDegree equals the set of first arguments "
+             "of addNeighbor in the same conversion (a transposing or symmetrising conversion that swaps the endpoints in only "
+             "one of the two passes overruns one node's edge range and leaves another's partly uninitialised). The order of the "
+             "passes is not checked here: several converters run both passes from one loop over a phase counter.")
+    n = 0
+    for f in fxt.functions:
+        if f["kind"] == "pattern" or not f["file"].endswith(("graph-convert/graph-convert.cpp", "graph-convert/graph-convert-huge.cpp")):
+            continue
+        fn = None
+        inc, add = set(), set()
+        has = False
+        for b in f.get("blocks", []):
+            for e in b["ev"]:
+                if e.get("k") == "call" and e.get("name") in ("incrementDegree", "addNeighbor") and e.get("a") and \
+                        (e.get("cls") or "").endswith("FileGraphWriter"):
+                    has = True
+                    (inc if e["name"] == "incrementDegree" else add).add(S(e["a"][0]))
+        if not has or not inc or not add:
+            continue
+        n += 1
+        fn = ctx.fn(f)
+        det = []
+        if inc != add:
+            det.append("degrees are counted for %s but edges are attached to %s" % (sorted(inc), sorted(add)))
+        ctx.ob("C12.convert.two-phase-agreement", f["qn"][-70:], not det, "; ".join(det), fn.loc(), f["key"][-60:], fnkey=f["key"])
+    ctx.floor("two-phase conversions", n, 12)
+
+
 def run(ctx):
     ctx.explanation = EXPL
     fx = ctx.load("src", "drv_grfile")
@@ -435,3 +530,6 @@ def run(ctx):
     widths(ctx, fx)
     versions(ctx, fx)
     endian(ctx)
+    fxt = ctx.load("tool_graph-convert")
+    convert_dispatch(ctx, fxt)
+    two_phase(ctx, fxt)
